@@ -23,6 +23,9 @@ import re as _re
 _OPEN = (types.SimpleNamespace, _dt.timedelta, _dt.datetime, _dt.date, _dt.time, _dt.tzinfo, dict, _re.Pattern, _re.Match)
 
 
+_STD_CLASSES = (_dt.timezone, _dt.datetime, _dt.date, _dt.time, _dt.timedelta)     # standard-library classes whose attributes / constructors may be used
+
+
 class Stub(types.SimpleNamespace):
     """a stub value built by a checker; when it carries `_eqkey` it compares like the thing it stands for (e.g. two aware
     datetimes with the same tzinfo compare by their wall clock fields, whatever their fold)"""
@@ -219,7 +222,7 @@ def ev(n: ast.AST, env: dict[str, Any], funcs: dict[str, ast.FunctionDef] | None
         return out
     if isinstance(n, ast.Attribute):
         v = ev(n.value, env, funcs, depth)
-        if isinstance(v, _OPEN) or v is _dt:
+        if isinstance(v, _OPEN) or v is _dt or (isinstance(v, type) and v in _STD_CLASSES):
             return _attr(v, n.attr, funcs, depth)
         raise Unsupported(f"attribute `{un(n)[:40]}`")
     if isinstance(n, ast.Subscript):
@@ -307,7 +310,7 @@ def ev(n: ast.AST, env: dict[str, Any], funcs: dict[str, ast.FunctionDef] | None
                 return getattr(recv, n.func.attr)(*args, **kws)
             if isinstance(recv, float) and n.func.attr in ("as_integer_ratio", "is_integer"):
                 return getattr(recv, n.func.attr)()
-            if isinstance(recv, _OPEN) or recv is _dt:
+            if isinstance(recv, _OPEN) or recv is _dt or (isinstance(recv, type) and recv in _STD_CLASSES):
                 f = _attr(recv, n.func.attr, funcs, depth)
                 if callable(f):
                     return f(*args, **kws)
